@@ -28,6 +28,7 @@ import traceback
 REPO = os.environ.get('VERIF_REPO', '/repo')
 SCRIPT = os.path.join(REPO, 'ssh-audit.py')
 _real_time = time.time
+_real_cpu = time.process_time
 _real_select = select.select
 
 _loaded = False
@@ -54,6 +55,7 @@ def _child(sc, wfd):
     res = {'exit': None, 'stdout': '', 'stderr': '', 'events': [], 'open': 0, 'waits': 0, 'waited': 0.0,
            'uncaught': None, 'files': {}, 'nconn': 0}
     tmp = tempfile.mkdtemp(prefix='vrun-')
+    cpu0 = _real_cpu()
     try:
         signal.alarm(int(sc.get('alarm', 60)))
         world = fakenet.World()
@@ -150,6 +152,8 @@ def _child(sc, wfd):
         res['harness_error'] = traceback.format_exc()
     finally:
         signal.alarm(0)
+        # processor time of the scenario process (the tool and the fake peers; real, not virtual, and little affected by the load of the machine)
+        res['cpu'] = _real_cpu() - cpu0
         try:
             data = pickle.dumps(res)
         except Exception:
